@@ -445,6 +445,13 @@ impl Agg {
         (self.pos + self.neg) as i64
     }
 
+    /// The true total of all observations is an i64 (even if some grouping of the additions
+    /// leaves the range on the way): the property says a report shows that total.
+    fn total_in_range(&self) -> bool {
+        let t = self.pos + self.neg;
+        t <= i128::from(i64::MAX) && t >= i128::from(i64::MIN)
+    }
+
     fn is_zero(&self) -> bool {
         self.count == 0
     }
@@ -931,7 +938,7 @@ fn check_exact(case: &Case, what: &str, view: &View, want: &[Agg]) -> Verdict {
                 }
             }
         }
-        if w.sum_in_range() {
+        if w.sum_in_range() || (w.unknown == 0 && w.total_in_range()) {
             let ok = if w.unknown == 0 { sum == w.sum() } else { sum >= w.sum() };
             if !ok {
                 return Err(Failure::new(
